@@ -989,6 +989,7 @@ func main() {
 	klog.SetOutput(io.Discard)
 	wd := &world{r: lib.Rand(), insts: map[cfgKey]*inst{}}
 	wd.w = lib.NewWriter(header, 500)
+	defer wd.w.Guard()
 	wd.logKey = pki.Key("p256", 7)
 	wd.root = pki.Issue(pki.Opts{CN: "c08 root", IsCA: true}, nil)
 	wd.other = pki.Issue(pki.Opts{CN: "c08 untrusted root", IsCA: true, KeyIdx: 1}, nil)
